@@ -8,7 +8,7 @@ from symnp.scalars import ENG, EngineGap, Infeasible, PathBudget
 from symnp.ctx import Ctx, Settings
 prop, cfg = sys.argv[1], sys.argv[2]
 mod = importlib.import_module('harness.' + prop.lower())
-params = dict(mod.configs('thorough', 0))[cfg]
+params = dict(list(mod.configs('thorough', 0)) + list(mod.canaries('quick', 0)))[cfg]
 S = Settings()
 for k, v in getattr(mod, 'SETTINGS', {}).items(): setattr(S, k, v)
 for k, v in params.get('_settings', {}).items(): setattr(S, k, v)
@@ -18,7 +18,7 @@ ENG.merge_abs = getattr(S, 'merge_abs', False)
 proxy.install(extra=getattr(mod, 'PROXY_EXTRA', ()))
 cp = {k: v for k, v in params.items() if not k.startswith('_')}
 def body():
-    ctx = Ctx('sym', settings=S); proxy.STATE.armed = True
+    ctx = Ctx('sym', settings=S, canary=cfg.startswith('canary')); proxy.STATE.armed = True
     try: mod.case(ctx, **cp)
     except (Infeasible, PathBudget): raise
     except Exception: traceback.print_exc()
